@@ -134,6 +134,10 @@ class Gen:
         x = r.random()
         if tparams and x < 0.35:
             t = r.choice(tparams)
+            if self.p.scoped_uses and r.random() < 0.06:
+                # a qualified name whose first component merely BEGINS like the parameter (Tx::Value for T): not a use of T
+                self.count('near_scoped_param')
+                return ('ty', ('tn', [t + r.choice(['x', '2', '_ns'])], r.choice(['Value', 'Type', 'Foo']), []), c, p, False)
             if self.p.scoped_uses and r.random() < self.p.p_scoped:
                 self.count('scoped_param')
                 return ('ty', ('tn', [t], r.choice(['Value', 'Type', 'Jacobian', 'shared_ptr']), []), c, p, False)
